@@ -5,6 +5,9 @@ ROOT = os.path.dirname(os.path.dirname(os.path.abspath(__file__)))
 
 # id -> (level category, technique, level text, level note, design ref)
 BUILT = {
+ "C11": ("exploration", "proptest (type, value, write path, read point) round trip through SQL",
+         "Generated values of every column type the SQL layer accepts (integer extremes, NaN/inf/+-0/subnormals, text and blobs from empty through the TOAST threshold and chunk sizes to MBs, UTF-8-valid blobs, Unicode, DATE/TIME/TIMESTAMP over years 1..9999, UUID, JSONB, VECTOR), written by INSERT or UPDATE as literal or bound parameter, must read back with the same type and value right after the write and after reopen.",
+         "Floats compared bitwise (any NaN for NaN), JSON by value. A 17-byte BLOB starting 0xFE is never executed in-process (aborts the process; listed under C31).", "4 C11"),
  "C42": ("exploration", "proptest SQL histories run under several PRAGMA configurations (differential against a reference configuration)",
          "One generated history (DDL, DML, transactions, checkpoint/reopen) runs on a reference database and on 2-3 databases under generated combinations of wal, synchronous, wal_autoflush, wal_checkpoint_threshold (tiny = auto-checkpoint every few statements) and with more table/index files than the open-file cache holds; every statement result and the full observation must be identical.",
          "Whether an auto-checkpoint really fired is not observable through the API; the tiny threshold makes it very likely. Inherits the shared DML/rollback/DDL gates.", "4 C42"),
